@@ -252,7 +252,7 @@ func c09Gen(g *simcore.Tape, thorough bool) *c09Scenario {
 	sc.Stick = simcore.Pick(g, []int{1, 3, 8})
 	sc.ReadTimeout = simcore.Pick(g, c09Timeouts)
 	sc.WriteTimeout = simcore.Pick(g, c09Timeouts)
-	max := 20000
+	max := 72 << 10 // above the copy buffer (32 KiB) and the simnet window (64 KiB)
 	if thorough {
 		max = 200 << 10
 	}
